@@ -229,6 +229,10 @@ class AsyncioEventLoop(EventLoop):
         If ExitMainLoop is raised, exit cleanly.
         """
         self._loop.set_exception_handler(self._exception_handler)
+        if not self._idle_asyncio_handle:
+            # like the other event loops: every run() begins with an idle pass, so that a callback whose exception
+            # ended the previous run() (its idle pass was cancelled) is followed by the idle callbacks before the loop sleeps
+            self._idle_asyncio_handle = self._loop.call_later(0, self._entering_idle)
         self._loop.run_forever()
         if self._exc:
             exc = self._exc
